@@ -22,6 +22,7 @@ import BevySyncModel.Slice.Promo
 import BevySyncModel.Slice.Chain
 import BevySyncModel.Slice.Budget
 import BevySyncModel.Slice.World
+import BevySyncModel.Slice.Hier
 /-! `bsmodel`: runs the executable model definitions on the cases the Rust harness prints, one line
 in, one line out (`ok <id>` / `MISMATCH <id> <what>`).  Lines starting with `#` are ignored.
 Only model files are imported (no proofs, no Mathlib), so this links as a native executable.
@@ -814,6 +815,32 @@ def checkPromo (toks : List String) : String :=
       go (Promo.init others) 0 (script.splitOn ";")
   | _ => "MISMATCH parse promo"
 
+/-! ### bevy_hierarchy against `Slice/Hier` (C05): `hier <id> <n> <ops> <expected>`; entities are 1..n, `ops` =
+comma-separated `L.p.c` (local `set_parent`) / `M.p.c` (what the `EntityParented` handlers do, guard included), `expected` =
+for every entity in order `parent:children` (`-` = none, children dot-separated **in the order of the `Children` component**),
+separated by `;` — as a bare bevy `World` reports them after the same operations -/
+def checkHier (toks : List String) : String :=
+  match toks with
+  | [n, ops, expected] =>
+    match n.toNat? with
+    | none => "MISMATCH parse hier n"
+    | some n =>
+      let parsed := (ops.splitOn ",").filter (· != "") |>.map (fun o =>
+        match o.splitOn "." with
+        | [k, p, c] => match p.toNat?, c.toNat? with
+          | some p, some c => if k == "L" then some (false, p, c) else if k == "M" then some (true, p, c) else none
+          | _, _ => none
+        | _ => none)
+      if parsed.any (·.isNone) then "MISMATCH parse hier ops" else
+      let h := Hier.runOps Hier.empty (parsed.filterMap id)
+      let dump := ";".intercalate ((List.range n).map (fun i =>
+        let e := i + 1
+        let par := match h.par e with | some p => toString p | none => "-"
+        let ch := if (h.ch e).isEmpty then "-" else ".".intercalate ((h.ch e).map toString)
+        s!"{par}:{ch}"))
+      if dump == expected then "ok" else s!"MISMATCH hier: after {parsed.length} operations the model holds {dump}, bevy_hierarchy {expected}"
+  | _ => "MISMATCH parse hier"
+
 /-! ### snapshot against the reliable channel's memory budget (C15, D20): `budget <id> <budget> <used> <sizes> <refused>`;
 `sizes` = dot-separated byte lengths of the snapshot's messages and the marker as the host encodes them, `refused` = 1 when the
 implementation's joiner was disconnected having received nothing -/
@@ -944,6 +971,7 @@ def handle (st : DState) (line : String) : DState × Option String :=
         | "chain" => checkChain rest
         | "budget" => checkBudget rest
         | "world" => checkWorld rest
+        | "hier" => checkHier rest
         | _ => "MISMATCH unknown line kind"
       (st, some s!"{r} {id}")
     | _ => (st, some "MISMATCH parse ?")
